@@ -121,6 +121,11 @@ func ctxString(k evKey) string { return fmt.Sprintf("trace-%d-%d", k.task, k.seq
 // request (several tasks share a request), and it has spare capacity: the library may
 // read it but must not append into it.
 func ctxFields(k evKey) []log.Field {
+	if k.ctxMode&32 != 0 {
+		// the application's own encoder fails for this request: the log call panics (the library
+		// does not recover application panics), the caller recovers - and life goes on
+		return []log.Field{log.String("trace_id", "doomed"), log.Array("boom", panicArr{})}
+	}
 	req := k.task % 2
 	ctxSharedMu.Lock()
 	defer ctxSharedMu.Unlock()
@@ -136,6 +141,15 @@ func ctxFields(k evKey) []log.Field {
 		ctxShared[req] = s
 	}
 	return ctxShared[req]
+}
+
+// panicArr is an application-defined array value whose encoder panics.
+type panicArr struct{}
+
+func (panicArr) EncodeArray(enc log.Encoder) {
+	enc.AppendInt64(1)
+	verifsim.Yield("app.EncodeArray")
+	panic("application encoder failed")
 }
 
 // spanIDs is an application-defined array value.
